@@ -55,6 +55,13 @@ var tunnelShapes = []shape{
 	// the origin announces 36 bytes and breaks off after 10: the client must learn that the body is
 	// incomplete (the connection ends), and what follows on a new connection is unaffected
 	{"M-origin-aborts-sized-body", "GET", "/m", nil, "", "", false},
+	// the origin names no content type: none is made up on either transport
+	{"N-no-content-type", "GET", "/n", nil, "", "", false},
+	// a GET that carries a body: when it is answered from the store nobody reads that body, and it must
+	// still not be taken for the next request on the tunnel
+	{"O-get-with-body", "GET", "/a", nil, "GET /i HTTP/1.1\r\nHost: " + originHost + "\r\n\r\n", "", false},
+	// a HEAD that the proxy answers with an error page of its own: a head only
+	{"P-head-origin-unreachable", "HEAD", "/k", nil, "", "", false},
 }
 
 func scriptTunnelOrigin(o *vnet.Origin, prefix string) {
@@ -64,6 +71,7 @@ func scriptTunnelOrigin(o *vnet.Origin, prefix string) {
 	o.Put(prefix+"/d", &vnet.Res{Name: "td", Size: 0, Status: 204, Headers: vnet.H{{"X-D", "token-d"}}})
 	o.Put(prefix+"/g", &vnet.Res{Name: "tg", Size: 7, Headers: vnet.H{{"Cache-Control", "no-store"}, {"Content-Type", "text/x-g"}}})
 	o.Put(prefix+"/k", &vnet.Res{Name: "tk", Size: 5, DialError: true})
+	o.Put(prefix+"/n", &vnet.Res{Name: "tn", Size: 15, Headers: vnet.H{{"Cache-Control", "no-store"}, {"X-N", "token-n"}}})
 	o.Put(prefix+"/m", &vnet.Res{Name: "tm", Size: 36, AbortAfter: 10, Headers: vnet.H{{"Cache-Control", "no-store"}, {"Content-Type", "text/x-m"}}})
 	o.Put(prefix+"/h", &vnet.Res{Name: "th", Size: 9, Status: 500, Headers: vnet.H{{"Content-Type", "text/x-h"}}})
 	o.Put(prefix+"/i", &vnet.Res{Name: "ti", Size: 20, Headers: vnet.H{{"Cache-Control", "max-age=600"}, {"X-One", "token-i"}, {"Set-Cookie", "i=1"}, {"Content-Type", "text/x-i"}}})
